@@ -4,11 +4,11 @@ from common_tb import COMMON_TB
 
 
 CFG = dict(
-    id="C10", tie="Tie.C10", n_quick=1200, n_thorough=4800, thorough_seeds=3, gen_timeout=2400,
+    id="C10", tie="Tie.C10", n_quick=900, n_thorough=3600, thorough_seeds=3, gen_timeout=2400,
     rule="one case = one random configuration (MaxNodeSize = required minimum + 0..1000 so that most trees are 3-6 levels "
          "deep, max key/value size 1..6, flush threshold 1..100000, buffered-size limit, cleanup percentage, compaction "
-         "threshold, max active snapshots, cache size 1..1M, file size 256..4M) and one random sequence of 12..50 (thorough: "
-         "..170) operations on a real tbtree in a temp dir: bulk inserts (repeated keys inside a batch, same-ts re-inserts, "
+         "threshold, max active snapshots, cache size 1..1M, file size 256..4M) and one random sequence of 8..37 (thorough: "
+         "..167) operations on a real tbtree in a temp dir: bulk inserts (repeated keys inside a batch, same-ts re-inserts, "
          "zero/explicit/mixed timestamps, malformed batches), IncreaseTs, FlushWith/Flush with cleanup 0..100, Sync, Compact, "
          "Close+Open, snapshots (requested ts, renewal period elapsed or not), Get/GetBetween/History/GetWithPrefix/Ts on "
          "the tree and on open snapshots, Readers with every combination of seek/end/prefix/inclusiveness/direction/"
